@@ -47,13 +47,14 @@ static const char *SB_GLOBALS_SCRIPT =
 	"globals.SbDict = { a = 1, b = \"two\" }\n"
 	"globals.SbArrU = [ \"oncall\", \"manager\", \"cto\" ]\n"
 	"globals.SbDup = [ 2, 1, 2, 1 ]\n"
-	"globals.SbNest = { list = [ 3, 1, 2 ], d = { z = 1, a = [ 9, 8 ] } }\n"
+	"globals.SbNest = { list = [ 3, 1, 2 ], d = { z = 12, a = [ 9, 8 ] } }\n"
 	"globals.SbDicts = [ { k = 2 }, { k = 1 } ]\n"
-	"globals.SbAoa = [ [ 5, 4 ], [ 2, 1, 3 ] ]\n";
+	"globals.SbAoa = [ [ 5, 4 ], [ 2, 1, 3 ] ]\n"
+	"globals.SbNum = 12\n";
 static const char *SB_HOSTVARS =
 	"{ arr = [ 1, 2 ], dict = { k = \"v\" }, os = \"linux\", boot_order = [ \"web\", \"db\", \"app\" ], dups = [ 3, 1, 3, 2, 1 ], "
 	"nested = { inner = { list = [ 9, 7, 8 ] }, z = 1 }, dicts = [ { k = 2 }, { k = 1 } ], aoa = [ [ 2, 1 ], [ 0 ], [ 6, 5, 4 ] ], "
-	"empty_arr = [], one = [ 5 ], empty_dict = {}, strs = [ \"b\", \"a\", \"b\" ] }";
+	"empty_arr = [], one = [ 5 ], empty_dict = {}, strs = [ \"b\", \"a\", \"b\" ], num = 12 }";
 static const char *SB_HOSTGROUPS = "[ \"sbg_linux\", \"sbg_dmz\", \"sbg_berlin\" ]";
 
 static void SbInitOnce()
@@ -92,7 +93,8 @@ static void SbRestoreFixture()
 {
 	try {
 		std::ostringstream c;
-		c << SB_GLOBALS_SCRIPT << "var h = get_object(Host, \"sbh\")\nh.vars = " << SB_HOSTVARS << "\nh.groups = " << SB_HOSTGROUPS << "\n";
+		c << SB_GLOBALS_SCRIPT << "var h = get_object(Host, \"sbh\")\nh.vars = " << SB_HOSTVARS << "\nh.groups = " << SB_HOSTGROUPS << "\n"
+		  << "h.display_name = \"sbh\"\nglobals.SbNs.x = 1\n";
 		std::unique_ptr<Expression> expr = ConfigCompiler::CompileText("<sb-restore>", c.str());
 		ScriptFrame frame(true);
 		expr->Evaluate(frame);
